@@ -16,6 +16,7 @@ pub enum Feat {
     Interface,  // interface instead of object type (also with extends)
     Generic,    // Id<T>, Box<T>["v"], generic named types
     Jsdoc,      // comments and JSDoc
+    JsdocHeavy, // ... on every second declaration and member
     DuMerge,    // discriminated union written with a literal-union tag / split by tag
     Enum,       // enums for literal unions and literals
     Typeof,     // typeof of `as const` constants
@@ -259,7 +260,8 @@ impl<'a, 'b> Renderer<'a, 'b> {
         self.s.chance(e, 8)
     }
     fn doc(&mut self) -> String {
-        if self.cfg.has(Feat::Jsdoc) && self.s.chance(1, 6) {
+        let heavy = self.cfg.has(Feat::JsdocHeavy);
+        if (self.cfg.has(Feat::Jsdoc) || heavy) && self.s.chance(1, if heavy { 2 } else { 6 }) {
             self.mark("jsdoc");
             match self.s.below(3) {
                 0 => "/** documented */ ".to_string(),
@@ -433,6 +435,19 @@ impl<'a, 'b> Renderer<'a, 'b> {
                     self.mark("exclude");
                     let before = self.s.below(3);
                     let pads = ["string", "number", "null"];
+                    if self.s.chance(1, 3) {
+                        // the type is the rest element, picked by the first index behind the fixed positions (or the next)
+                        self.mark("indexed_tuple_rest");
+                        let fixed: Vec<String> = (0..before).map(|i| pads[i % 3].to_string()).collect();
+                        let tuple = if fixed.is_empty() { format!("[...({})[]]", t.s) } else { format!("[{}, ...({})[]]", fixed.join(", "), t.s) };
+                        let idx = before + self.s.below(2);
+                        if self.s.chance(1, 2) {
+                            let n = self.fresh("Row");
+                            self.decls.push(format!("type {} = {};", n, tuple));
+                            return atom(format!("{}[{}]", n, idx));
+                        }
+                        return atom(format!("{}[{}]", tuple, idx));
+                    }
                     let mut elems: Vec<String> = (0..before).map(|i| pads[i % 3].to_string()).collect();
                     elems.push(t.s.clone());
                     let last = self.s.chance(1, 2);
@@ -873,6 +888,32 @@ impl<'a, 'b> Renderer<'a, 'b> {
                 self.mark("typeof_const_annotated");
                 let m = self.members_detached(props);
                 self.decls.push(format!("const {}: {{ {} }} = {};", c, m, const_expr(&D::Object { props: props.to_vec(), index: None })));
+                return Txt { s: format!("typeof {}", c), p: Prec::Prefix };
+            }
+            if self.s.chance(1, 3) {
+                // object spread with one key written twice: the later entry wins, whether it is the spread or the
+                // explicit key
+                self.mark("typeof_const_spread");
+                let i = self.s.below(props.len());
+                let wrong = match &props[i].ty {
+                    D::StrLit(_) => "\"zz-other\"".to_string(),
+                    D::NumLit(_) => "99".to_string(),
+                    D::BoolLit(b) => (!b).to_string(),
+                    _ => "\"zz-other\"".to_string(),
+                };
+                let entry = |p: &Prop| format!("{}: {}", ts_string(&p.key), const_expr(&p.ty));
+                let c2 = self.fresh("c");
+                if self.s.chance(1, 2) {
+                    // { ...base, key: right }   (base holds the wrong value for that key)
+                    let base: Vec<String> = props.iter().enumerate().map(|(j, p)| if j == i { format!("{}: {}", ts_string(&p.key), wrong) } else { entry(p) }).collect();
+                    self.decls.push(format!("const {} = {{ {} }} as const;", c2, base.join(", ")));
+                    self.decls.push(format!("const {} = {{ ...{}, {} }} as const;", c, c2, entry(&props[i])));
+                } else {
+                    // { key: wrong, others..., ...over }   (over holds the right value)
+                    self.decls.push(format!("const {} = {{ {} }} as const;", c2, entry(&props[i])));
+                    let own: Vec<String> = props.iter().enumerate().map(|(j, p)| if j == i { format!("{}: {}", ts_string(&p.key), wrong) } else { entry(p) }).collect();
+                    self.decls.push(format!("const {} = {{ {}, ...{} }} as const;", c, own.join(", "), c2));
+                }
                 return Txt { s: format!("typeof {}", c), p: Prec::Prefix };
             }
             self.decls.push(format!("const {} = {} as const;", c, const_expr(&D::Object { props: props.to_vec(), index: None })));
